@@ -29,6 +29,22 @@ theorem C06_in_bounds (i L n : Nat) (hi : i < L) (hn : n ≤ L) (hL : L < 2 ^ 63
   obtain ⟨b1, b2, b3, _, _⟩ := Gen.nextChunk_lens i L n hi hn
   exact ⟨a1, a4, a5, a2, a3, b1, b2, b3, Gen.nextChunkMut_safe i L n hi hn hL, Gen.nextChunk_safe i L n hi hn hL⟩
 
+/-- Tie to the source: the window a chunk function hands out depends on the iterator's index, the buffer length and
+the requested count only — not on the remembered availability, the successor's index or a fresh availability (the
+machine passes `0` for those three; this theorem is what makes that faithful, and it stops holding the moment
+`next_chunk*` starts looking at them). -/
+theorem C06_source_window_depends_on_index_len_count (i c sx L n av : Nat) :
+    Gen.nextChunkMut.headOff i c sx L n av = Gen.nextChunkMut.headOff i 0 0 L n 0 ∧
+    Gen.nextChunkMut.headLen i c sx L n av = Gen.nextChunkMut.headLen i 0 0 L n 0 ∧
+    Gen.nextChunkMut.tailOff i c sx L n av = Gen.nextChunkMut.tailOff i 0 0 L n 0 ∧
+    Gen.nextChunkMut.tailLen i c sx L n av = Gen.nextChunkMut.tailLen i 0 0 L n 0 ∧
+    Gen.nextChunk.headOff i c sx L n av = Gen.nextChunk.headOff i 0 0 L n 0 ∧
+    Gen.nextChunk.headLen i c sx L n av = Gen.nextChunk.headLen i 0 0 L n 0 ∧
+    Gen.nextChunk.tailOff i c sx L n av = Gen.nextChunk.tailOff i 0 0 L n 0 ∧
+    Gen.nextChunk.tailLen i c sx L n av = Gen.nextChunk.tailLen i 0 0 L n 0 ∧
+    Gen.nextChunkMut.checkArg i c sx L n av = n ∧ Gen.nextChunk.checkArg i c sx L n av = n :=
+  ⟨rfl, rfl, rfl, rfl, rfl, rfl, rfl, rfl, rfl, rfl⟩
+
 /-- In every reachable state a granted window lies inside the storage and its contents are, in order, the
     items at the logical positions `pos, pos+1, …` (so no out-of-bounds fault is ever recorded). -/
 theorem C06_window_contents {s : St} {a : Sp} (h : Rel s a) (r : Role) (n : Nat) (hal : Allowed s a (.sliceExact r n))
